@@ -257,10 +257,18 @@ def draw_filter(rng, opts, kind=None):
     return f
 
 
-def expected_mask(truth, opts, filt, s):
-    """mask the filter must produce on superslab position s (oracle side, from truth)"""
+def draw_mixed_filter(rng, opts, nfiles):
+    """a filter drawn independently per superslab (dispatched on the call count)"""
+    return {'kind': 'mixed', 'subs': [draw_filter(rng, opts, kind=str(rng.choice(
+        ['all', 'nothing', 'random', 'random', 'parity', 'Nthr', 'Nthr']))) for _ in range(nfiles)]}
+
+
+def expected_mask(truth, opts, filt, s, pos=0):
+    """mask the filter must produce on superslab position s, the pos-th file of the load (oracle side, from truth)"""
     sl = truth.cat.slabs[s]
     n = sl.nhalo
+    if filt['kind'] == 'mixed':
+        filt = filt['subs'][pos]
     k = filt['kind']
     if k in ('none', 'all'):
         return [True] * n
@@ -277,14 +285,16 @@ def expected_mask(truth, opts, filt, s):
 
 def make_filter(filt, record):
     """the filter function handed to the real class; `record` collects (ids, mask, N seen or None)"""
-    k = filt['kind']
-    if k == 'none':
+    if filt['kind'] == 'none':
         return None
+    top = filt
 
     def f(h):
+        filt = top['subs'][len(record)] if top['kind'] == 'mixed' else top
+        k = filt['kind']
         ids = [int(i) for i in h['id']]
         seenN = [int(v) for v in h['N']] if 'N' in h.colnames else None
-        if k == 'all':
+        if k in ('all', 'none'):
             m = np.ones(len(h), dtype=bool)
         elif k == 'nothing':
             m = np.zeros(len(h), dtype=bool)
@@ -378,8 +388,8 @@ def decode_expected(truth, toks, col, box, ppd):
 def expected_rows(truth, case, masks=None):
     """[(s, j)] rows the load must return, in order: file order, rows kept by the expected mask"""
     rows = []
-    for s in case['files']:
-        m = expected_mask(truth, case['opts'], case['filt'], s) if masks is None else masks[s]
+    for pos, s in enumerate(case['files']):
+        m = expected_mask(truth, case['opts'], case['filt'], s, pos) if masks is None else masks[s]
         rows += [(s, j) for j in range(truth.cat.slabs[s].nhalo) if m[j]]
     return rows
 
@@ -415,8 +425,8 @@ def oracle(ctx, truth, case, status, obs, record, pid='C01'):
     if case['filt']['kind'] != 'none':
         if len(record) != len(case['files']):
             fail('filter_func not called once per superslab', len(record), len(case['files']), 'filter-calls')
-        for s, rec in zip(case['files'], record):
-            em = expected_mask(truth, opts, case['filt'], s)
+        for pos, (s, rec) in enumerate(zip(case['files'], record)):
+            em = expected_mask(truth, opts, case['filt'], s, pos)
             if rec['N'] is not None:
                 eN = [truth.seen_N(s, j, opts['cleaned'], opts['passthrough']) for j in range(len(em))]
                 if rec['N'] != eN:
